@@ -82,10 +82,12 @@ def drain_steps(conns=4, sids=(1, 2, 3)):
     return st
 
 
-def gen_random_histories(work, n, depth, seed, mods, tag, conns=4, kinds=None):
-    out = work.path("rand-" + tag + ".ndjson")
+def gen_random_histories(work, n, depth, seed, mods, tag, conns=4, kinds=None, dense=False):
+    out = work.path("rand-" + tag + ("d" if dense else "") + ".ndjson")
     cmd = [sys.executable, os.path.join(VERIF, "tools", "genhist.py"), "--seed", str(seed), "--n", str(n),
            "--depth", str(depth), "--conns", str(conns), "--mods", ",".join(mods), "--out", out]
+    if dense:
+        cmd += ["--dense"]
     if kinds:
         cmd += ["--kinds", ",".join(kinds)]
     subprocess.run(cmd, check=True)
@@ -374,6 +376,8 @@ def run_relay_check(work, prop, tier, replay=None):
                 hs += gen_tlc_histories(work, max(10, ng // 2 // k), sz["gen_depth"], seed * 1000 + i + 500 + fi, mods, tag + "f" + fam, **fo)
                 hs += gen_random_histories(work, max(10, nr // 2 // k), sz["rand_depth"], seed * 1000 + i + 500 + fi, mods, tag + "f" + fam,
                                            kinds=fo["Kinds"])
+            # valid-biased histories of one session: dense in accepted component / pose / action changes with their relays
+            hs += gen_random_histories(work, 40 if tier == "quick" else 300, 90, seed * 1000 + i + 900, mods, tag, dense=True)
             hs += scenario_histories(mods)
             groups.append((mods, hs))
 
